@@ -206,6 +206,10 @@ func MemYield(site string) {
 // between any two plain memory accesses; these runs explore that.
 var DenseAll bool
 
+// DenseFuncs: functions whose statement-granularity points are on in every dense run of the current scenario
+// (a scenario class may aim dense exploration at the code it is about, like a site-triggered fault).
+var DenseFuncs map[string]bool
+
 // MemYieldAll is a scheduling point before a plain statement of any function. In a dense run a seed-chosen subset of
 // the functions (about one in six, by function name) has its points switched on: every function gets its turn over
 // many runs while a single run stays affordable.
@@ -225,7 +229,7 @@ func MemYieldAll(site string) {
 		if i := strings.IndexByte(site, '#'); i >= 0 {
 			fn, kind = site[:i], site[i+1:]
 		}
-		on = Mix(HashString(fn)^rt.Seed)%6 == 0 || strings.HasPrefix(kind, "rmw")
+		on = Mix(HashString(fn)^rt.Seed)%6 == 0 || strings.HasPrefix(kind, "rmw") || DenseFuncs[fn]
 		if rt.denseSel == nil {
 			rt.denseSel = map[string]bool{}
 		}
